@@ -133,6 +133,8 @@ fn gen_case(rng: &mut Rng, mode: Mode) -> ReaderCase {
     let len = match rng.below(10) {
         // rare: beyond two default chunks, so that realign/shrink also run with the shipped chunk size
         _ if !cfg!(miri) && rng.chance(1, 600) => rng.range(40_000, 120_000),
+        // very rare: look-aheads of hundreds of KiB, BufReaders holding more than a chunk
+        _ if !cfg!(miri) && rng.chance(1, 2500) => rng.range(200_000, 1_000_000),
         0 => rng.below(4),
         1..=5 => rng.range(4, 96),
         _ if cfg!(miri) => rng.range(4, 96),
@@ -169,7 +171,11 @@ fn gen_case(rng: &mut Rng, mode: Mode) -> ReaderCase {
         0 => RCtor::FromRead,
         1 => RCtor::Boxed,
         _ => {
-            let cap = *rng.pick(&[1usize, 2, 3, 8, 64]);
+            let cap = if len > 30_000 {
+                *rng.pick(&[64usize, 20_000, 65_536, 131_072])
+            } else {
+                *rng.pick(&[1usize, 2, 3, 8, 64])
+            };
             let npre = rng.below(4);
             let mut pre_ops = vec![];
             for _ in 0..npre {
@@ -179,7 +185,9 @@ fn gen_case(rng: &mut Rng, mode: Mode) -> ReaderCase {
                     PreOp::FillConsume(rng.small(10))
                 });
             }
-            let pre_sizes = (0..npre + 1).map(|_| 1 + rng.small(70)).collect();
+            let pre_sizes = (0..npre + 1)
+                .map(|_| if cap > 64 { 1 + rng.below(cap) } else { 1 + rng.small(70) })
+                .collect();
             RCtor::BufReader {
                 cap,
                 pre_sizes,
